@@ -400,7 +400,81 @@ func c11AllEnts(f func(e c11Ent)) {
 	}
 }
 
+var c11Edits = []string{"issuer-to-the-other-root", "subject", "serial", "profile-extension-content", "profile-validity", "own-extension-added", "none"}
+
+// c11RealEdit: the "hash differs from the current effective configuration" condition produced by a real edit of
+// the entity's or its profile's file (the synthetic realisations write a different hash line instead).
+func c11RealEdit(x *engine.Ctx, c *c11Case) {
+	prof := &refcfg.ProfileCfg{Path: "prof.yaml", Name: "p", Validity: &refcfg.Validity{From: "2022-01-01", Until: "2032-01-01"},
+		Exts: []refcfg.Ext{{Kind: refcfg.KKU, Critical: refcfg.B(true), KU: refcfg.Strs("digitalSignature")}}}
+	ca1 := &refcfg.CertCfg{Path: "ca1.yaml", Subject: "CN=CA One", KeyAlg: "P-224"}
+	ca2 := &refcfg.CertCfg{Path: "ca2.yaml", Subject: "CN=CA Two", KeyAlg: "P-224"}
+	ee := &refcfg.CertCfg{Path: "ee.yaml", Subject: "CN=EE", Issuer: "ca1", KeyAlg: "P-224", Profile: "p"}
+	d := &Dir{Certs: []*refcfg.CertCfg{ca1, ca2, ee}, Profiles: []*refcfg.ProfileCfg{prof}}
+	w := simfs.New(simfs.TickPerWrite)
+	d.Render(w)
+	if r0 := drive.Run(w, drive.Default, nil); !r0.OK() {
+		x.Violation("C11/real-edit/first-run-failed", fmt.Sprintf("%v %s", r0.Err(), r0.Panic))
+		return
+	}
+	switch c11Edits[c.N] {
+	case "issuer-to-the-other-root":
+		ee.Issuer = "ca2" // ca2.pem is older than ee.pem: no other reason applies
+	case "subject":
+		ee.Subject = "CN=EE renamed"
+	case "serial":
+		ee.Serial = refcfg.I64(99)
+	case "profile-extension-content":
+		prof.Exts[0].KU = refcfg.Strs("keyEncipherment")
+	case "profile-validity":
+		prof.Validity.Until = "2033-03-03"
+	case "own-extension-added":
+		ee.Exts = []refcfg.Ext{{Kind: refcfg.KOCSP}}
+	}
+	if strings.HasPrefix(c11Edits[c.N], "profile-") {
+		w.Put(prof.Path, RenderCfg(prof.Path, prof.Tree()))
+	} else if c11Edits[c.N] != "none" {
+		w.Put(ee.Path, RenderCfg(ee.Path, ee.Tree()))
+	}
+	strat := c11Strat(c.Strat)
+	t0 := time.Now().Unix()
+	res := drive.Run(w, strat, nil)
+	t1 := time.Now().Unix()
+	x.Transition(2)
+	x.Nontrivial(fmt.Sprintf("real-edit %d %d", c.N, c.Strat))
+	if !res.OK() {
+		x.Violation("C11/real-edit/run-failed edit="+c11Edits[c.N], fmt.Sprintf("strategy %05b: %v %s", c.Strat, res.Err(), res.Panic))
+		return
+	}
+	want := c11Edits[c.N] != "none" && strat&db.UpdateChanged != 0
+	got := res.Planned("ee")
+	if want != got {
+		x.Violation(fmt.Sprintf("C11/real-edit/decision edit=%s expected=%v got=%v", c11Edits[c.N], want, got), fmt.Sprintf("edit %s, then a run with strategy %05b: the stored hash %s the effective configuration, plan %v", c11Edits[c.N], c.Strat, map[bool]string{true: "differs from", false: "equals"}[c11Edits[c.N] != "none"], res.PlanAliases()))
+		return
+	}
+	if res.Planned("ca1") || res.Planned("ca2") {
+		x.Violation("C11/real-edit/unrelated-entity-regenerated edit="+c11Edits[c.N], fmt.Sprintf("strategy %05b: plan %v", c.Strat, res.PlanAliases()))
+	}
+	if got {
+		diffs, _, err := (&GenResult{W: w, Res: res, RunStart: t0, RunEnd: t1}).CompareEntity(d, "ee", "")
+		if err != nil {
+			x.Violation("C11/real-edit/no-certificate edit="+c11Edits[c.N], err.Error())
+			return
+		}
+		for _, df := range diffs {
+			x.Violation("C11/real-edit/regenerated-but-not-from-the-current-files/"+strings.TrimPrefix(df.Class, df.Owner+"/")+" edit="+c11Edits[c.N], short(df.Detail, 400))
+		}
+	}
+	x.Outcome("real edit")
+}
+
 func c11Enumerate(tier string, yield func(any)) {
+	// real edits of the entity's or its profile's file x strategies without generate-outdated and generate-all
+	for e := range c11Edits {
+		for _, st := range []int{0, int(db.UpdateMissing), int(db.UpdateChanged), int(db.UpdateExpired), int(db.UpdateMissing | db.UpdateChanged), int(db.UpdateChanged | db.UpdateExpired), int(db.UpdateMissing | db.UpdateExpired), int(db.UpdateMissing | db.UpdateChanged | db.UpdateExpired)} {
+			yield(&c11Case{Kind: "real-edit", N: e, Strat: st})
+		}
+	}
 	if tier == "thorough" {
 		c11AllEnts(func(e c11Ent) { yield(&c11Case{Kind: "pair", Issuer: e}) })
 	} else {
@@ -526,6 +600,8 @@ func c11Exec(x *engine.Ctx, cc any) {
 		x.Outcome(fmt.Sprintf("forest n=%d", n))
 	case "files":
 		c11Files(x, c)
+	case "real-edit":
+		c11RealEdit(x, c)
 	case "failing-issuer":
 		c11FailingIssuer(x, c)
 	case "cli":
@@ -976,7 +1052,7 @@ func init() {
 	register(&engine.Check{
 		ID:          "C11",
 		Level:       "model_checking",
-		Rule:        "(1) db.PlanBulkUpdate on a synthetic db.Database: for an issuer/subject pair the full product of per-entity states (artifact {absent, cert+key, cert+CSR, key only, cert only} x stored hash {none, equal, different} x (certificate expired / valid / not yet valid) x (configured end before the certificate's end / after it but still past / future / far future) x config older / newer / same time stamp as the artifact) for both entities x issuer-vs-subject artifact time {<,=,>} x all 32 strategies; for every rooted forest on <=3 (quick) / <=4 (thorough) entities a 6-letter per-entity alphabet x all strict artifact-time orders + all-equal x 32 strategies (x 6 return-order permutations of roots/subscribers for n<=3). (2) the same pair states realised as files (hash line, PEM blocks, mtimes) on FsDb+simfs for all 225 artifact/hash combinations x config age x time relation x 32 strategies, followed by BulkUpdate (issuer written first, subject verifies under the issuer written in this run, nothing unplanned written). (3) the CLI binary with all 32 explicit flag combinations on one world per reason, and all 243 spellings of the five flags (unmentioned = default, given, given as =false; short and long forms) on three worlds, which pins the documented defaults (-m and -c on). (4) a settled chain whose root or intermediate is edited so that it is due but cannot be signed (misfitting signature algorithm / uncompilable extension) x 4 strategies: the run fails and no file at or below that entity changes. Oracle: the decision table transcribed from the statement with explicit don't-care cells. states = distinct abstract worlds, transitions = plans computed",
+		Rule:        "(0) the hash condition produced by real edits: a settled three-entity directory, one of 6 edits of the entity's or its profile's file (issuer moved to the other root, subject, serial, profile extension content, profile validity, own extension) or none x 8 strategies without generate-outdated/-all: regenerated iff generate-changed is on and something was edited, from the current files, nothing else touched. (1) db.PlanBulkUpdate on a synthetic db.Database: for an issuer/subject pair the full product of per-entity states (artifact {absent, cert+key, cert+CSR, key only, cert only} x stored hash {none, equal, different} x (certificate expired / valid / not yet valid) x (configured end before the certificate's end / after it but still past / future / far future) x config older / newer / same time stamp as the artifact) for both entities x issuer-vs-subject artifact time {<,=,>} x all 32 strategies; for every rooted forest on <=3 (quick) / <=4 (thorough) entities a 6-letter per-entity alphabet x all strict artifact-time orders + all-equal x 32 strategies (x 6 return-order permutations of roots/subscribers for n<=3). (2) the same pair states realised as files (hash line, PEM blocks, mtimes) on FsDb+simfs for all 225 artifact/hash combinations x config age x time relation x 32 strategies, followed by BulkUpdate (issuer written first, subject verifies under the issuer written in this run, nothing unplanned written). (3) the CLI binary with all 32 explicit flag combinations on one world per reason, and all 243 spellings of the five flags (unmentioned = default, given, given as =false; short and long forms) on three worlds, which pins the documented defaults (-m and -c on). (4) a settled chain whose root or intermediate is edited so that it is due but cannot be signed (misfitting signature algorithm / uncompilable extension) x 4 strategies: the run fails and no file at or below that entity changes. Oracle: the decision table transcribed from the statement with explicit don't-care cells. states = distinct abstract worlds, transitions = plans computed",
 		Bound:       map[string]string{"forest": "quick<=3 thorough<=4", "file layer": "2-entity chain"},
 		Assumptions: []string{"comparisons 'newer than its artifact' are not decided when the entity has no artifact file (don't-care)", "expiry is explored with certificates decades away from the wall clock"},
 		Budget:      budgets(quickBudget, thoroughBudget),
